@@ -164,13 +164,37 @@ class AcqFamily(Family):
         return res
 
 
+class DeepChainSpace(Space):
+    """Repeated blocks whose measured qubit carries a chain of three measurements next to one long operation on another
+    qubit (under H: 3 x readout 3 < microwave 11): the latest-ending relation leaf of a repetition is then shallower in
+    relation steps than the end of the chain, which is where listing order and time order can part."""
+    name = 'QD'
+
+    def __init__(self, max_len, reps=(2, 3), modes=('own', 'top')):
+        super().__init__(max_len)
+        long_op = ('op', 'X', 1, None)
+        bodies = []
+        for tags in itertools.product(('', 'a'), repeat=3):
+            chain = [('op', 'M', 0, None, t) for t in tags]
+            for pos in range(4):
+                bodies.append(tuple(chain[:pos] + [long_op] + chain[pos:]))
+        s = [('op', 'M', 0, None, ''), ('op', 'M', 1, None, 'a'), ('op', 'X', 0, None)]
+        s += [('sub', r, body, mode) for body in bodies for r in reps for mode in modes]
+        self._s = s
+
+    def steps(self, i):
+        return self._s
+
+
 def families(tier):
     if tier == 'quick':
         return [AcqFamily(AcqSpace(2)), AcqFamily(AcqSpace(1, two_level=True, reps=(1, 2, 3)), 'D', structure_path=True),
-                AcqFamily(AcqSpace(2, tags=('',), reps=(2,), extra=(('X', 0),)), 'H', structure_path=True)]
+                AcqFamily(AcqSpace(2, tags=('',), reps=(2,), extra=(('X', 0),)), 'H', structure_path=True),
+                AcqFamily(DeepChainSpace(2, reps=(2,), modes=('own',)), 'H')]
     return [AcqFamily(AcqSpace(2, tags=('', 'a', 'b'), reps=(1, 2, ('reg', 3)))), AcqFamily(AcqSpace(2, tags=('', 'a'), two_level=True, extra=(('X', 0),), reps=(1, 2)), 'D'),
             AcqFamily(AcqSpace(3, tags=('', 'a'), reps=(2,), extra=(), modes=('own',)), 'H'),
-            AcqFamily(AcqSpace(2, tags=('', 'a'), reps=(1, 2), extra=(('X', 0),)), 'H', structure_path=True)]
+            AcqFamily(AcqSpace(2, tags=('', 'a'), reps=(1, 2), extra=(('X', 0),)), 'H', structure_path=True),
+            AcqFamily(DeepChainSpace(2), 'H')]
 
 
 def signature(f):
